@@ -63,6 +63,12 @@ fn case_strategy(cfg: ModelCfg) -> impl Strategy<Value = DictCase> {
                 if new_dict.iter().any(|d| d.word == word) {
                     continue;
                 }
+                if sel % 7 == 2 {
+                    // the same record twice in a row (e.g. merged CSV files): every entry counts
+                    if let Some(prev) = new_dict.last().cloned() {
+                        new_dict.push(prev);
+                    }
+                }
                 let n = word.chars().count() + 1;
                 new_dict.push(WordSpec {
                     weights: (0..n).map(|k| ws[k % ws.len()]).collect(),
